@@ -65,6 +65,10 @@ fn load_known(id: &str) -> Vec<KnownEntry> {
     f.findings.into_iter().filter(|e| e.property == id).collect()
 }
 
+pub fn known_open_signatures(id: &str) -> Vec<String> {
+    load_known(id).into_iter().filter(|e| e.status == "open").map(|e| e.signature).collect()
+}
+
 struct Shared {
     evaluations: AtomicU64,
     nontrivial: Mutex<HashSet<u64>>,
